@@ -9,10 +9,15 @@ import tr_c12 as tr
 
 PROP = "C12"
 HARNESS = os.path.join(vlib.VERIF, "harness", "c12.cc")
+PYR = os.path.join(vlib.VERIF, "harness", "c12r.py")
 
 
 def build():
     return vbuild.build_exe("c12", [HARNESS], ["tools"])
+
+
+def build_resample():
+    return vbuild.build_exe("csg_resample", [vbuild.REPO + "/csg/src/tools/csg_resample.cc"], ["tools", "csg"])
 
 
 def run(tier, seed, replay=None):
@@ -49,6 +54,17 @@ def run(tier, seed, replay=None):
             ck.aborts.append({"what": "harness exited %d: %s" % (rc, err[-300:]), "lines": []})
         ck.feed("random(n=%d)" % n, out)
     go(3000 if tier == "quick" else 100000, seed)
+    # the csg_resample executable
+    try:
+        rexe = build_resample()
+        nr = 400 if tier == "quick" else 8000
+        rc, out, err = vlib.run_harness(sys.executable, [PYR, rexe, "rand", str(nr)], env={"VERIF_SEED": str(seed)})
+        if rc != 0:
+            ck.aborts.append({"what": "csg_resample harness exited %d: %s" % (rc, err[-300:]), "lines": []})
+        ck.feed("csg_resample(n=%d)" % nr, out)
+    except vbuild.BuildError as e:
+        ob["ok"] = False
+        ob["failures"].append("csg_resample does not compile from the current source: " + str(e)[-300:])
     if ((not ob["ok"]) or ck.disagree) and not ck.propfail and tier == "quick":
         ck.notes.append("obligation or correspondence broken: widened search")
         go(40000, seed + 1000)
@@ -60,5 +76,5 @@ def run(tier, seed, replay=None):
              "passes; cubic Fit of data sampled from a function of the fit grid's spline space",
         assumptions=["Eigen's Householder QR is external: the implementation's second derivatives are certified by their exact residual (tolerance 1e-8 relative)",
                      "IEEE rounding not modelled; comparisons with tolerance 1e-8; Akima's degenerate-slope test (1e-15) is modelled as exact equality and such cases are not compared",
-                     "csg_resample (executable) and the least-squares optimality of Fit beyond 'reproduces the spline space' are not covered: partial"],
-        trivial_tags=())
+                     "csg_resample is run in interpolation mode (linear, natural cubic, Akima with natural and periodic end slopes) on the input grid, finer, coarser, offset and wider grids with the derivative table; its fit mode (--fitgrid) and the periodic cubic boundary are not run; output rows that meet the first input abscissa only up to rounding are not judged for flags; the least-squares optimality of Fit is the KKT theorem of C06"],
+        trivial_tags=("resample-akima-degenerate-skipped",))
